@@ -1,8 +1,8 @@
 (* Proofs about Model/LdmSubReact.v: histories in which consumers act on their notifications (seed C14-11).
    The notification time is recorded before the callback runs, so whatever the consumer does from inside its
-   callback - nested attendances included - cannot notify it again within its interval; a subscription that is
-   out of the list and not ahead of any attendance under way is never invoked again; the full clause is refuted
-   (known finding KF-C14-2). *)
+   callback - nested attendances included - cannot notify it again within its interval; the attendance looks a
+   subscription up in the list when its turn comes, so a subscription that has left the list is never invoked again,
+   also by an attendance that took its snapshot before the cancellation (KF-C14-2, repaired). *)
 From FlexVerif Require Import Base.Prelude Model.LdmFilter Model.LdmSub Model.LdmSubReact Proofs.LdmSubProofs.
 From Coq Require Import ZifyBool.
 Ltac Zify.zify_post_hook ::= Z.to_euclidean_division_equations.
@@ -195,6 +195,7 @@ Proof.
     { intros E. injection E as <- <-. cbn [rev app c_st]. split; [|split; [exact I|lia]].
       apply (J_plain c h (c_st c) _ _ _ []); auto using no_calls_nil; try lia. all: try (constructor; assumption). }
     destruct (negb (nonempty (data_of (c_st c) u)) || negb (mult_ok u (length (data_of (c_st c) u)))
+              || negb (listed (c_st c) u)
               || negb (interval_passed (now (c_st c)) (u_nt u) (cur_last (c_st c) u))) eqn:Edue.
     { intros E. injection E as <- <-. cbn [rev app c_st]. split; [|split; [exact I|lia]].
       apply (J_plain c h (c_st c) _ _ _ []); auto using no_calls_nil; try lia. all: try (constructor; assumption). }
@@ -291,6 +292,7 @@ Proof.
   - intros E. injection E as <- <-. intros [H|[]]. discriminate.
   - destruct (negb (mem (u_app u0) (conss (c_st c)))); [intros E; injection E as <- <-; intros []|].
     destruct (negb (nonempty (data_of (c_st c) u0)) || negb (mult_ok u0 (length (data_of (c_st c) u0)))
+              || negb (listed (c_st c) u0)
               || negb (interval_passed (now (c_st c)) (u_nt u0) (cur_last (c_st c) u0)));
       [intros E; injection E as <- <-; intros []|].
     destruct (pop_script (u_cb u0) (c_scripts c)) as [r scr].
@@ -301,99 +303,94 @@ Proof.
 Qed.
 
 (* ---- after its cancellation a callback is not invoked again ----------------------------------------- *)
-Lemma gone_frames cb k : (forall f, In f k -> ~ ahead cb f) -> forall f k', (forall g, In g k' -> g = f \/ In g k) -> ~ ahead cb f ->
-  forall g, In g k' -> ~ ahead cb g.
-Proof. intros Hk f k' Hsub Hf g Hg. destruct (Hsub g Hg) as [->|Hin]; [assumption|now apply Hk]. Qed.
-
-Lemma not_ahead_ops cb top i ops : ~ ahead cb (FOps top i ops).
-Proof. cbn. tauto. Qed.
-
-Lemma gone_step tbl cb c c' evs :
-  gone cb c -> mstep tbl c = Some (c', evs) ->
-  gone cb c' /\ forall e, In e evs -> ~ is_call_of cb e.
+Lemma mem_In x l : mem x l = true <-> In x l.
 Proof.
-  intros (Hsubs & Hfr & Hcb). unfold mstep.
+  unfold mem. rewrite existsb_exists. split.
+  - intros (y & Hy & E). apply Z.eqb_eq in E. now subst.
+  - intros H. exists x. split; [assumption|apply Z.eqb_refl].
+Qed.
+
+(* a cancelled subscription stays cancelled (callback numbers are not handed out twice), and the step of an attendance
+   that reaches it - also one that has it in a snapshot taken before the cancellation - does not invoke it: it looks
+   the subscription up in the list first *)
+Lemma cancelled_step tbl cb c c' evs :
+  cancelled cb c -> mstep tbl c = Some (c', evs) ->
+  cancelled cb c' /\ forall e, In e evs -> ~ is_call_of cb e.
+Proof.
+  intros (Hsubs & Hcb). unfold mstep.
   assert (forall l, (forall e, In e l -> match e with ECall _ _ _ => False | _ => True end) ->
                     forall e, In e l -> ~ is_call_of cb e) as Hno
     by (intros l Hl e He; specialize (Hl e He); destruct e; cbn; tauto).
   destruct (c_stack c) as [|[top i [|o ops]|[|u rest] marked mk out] k] eqn:Ek; [discriminate| | | |].
   - intros E. injection E as <- <-. split; [|intros e []].
-    unfold gone. cbn [c_st c_stack]. repeat split; try assumption. intros f Hf. apply Hfr. now right.
+    unfold cancelled. cbn [c_st]. split; assumption.
   - assert (forall e, In e (if top then [] else [EBegin]) -> match e with ECall _ _ _ => False | _ => True end) as Hb
       by (intros e He; destruct top; cbn in He; [tauto|destruct He as [<-|[]]; exact I]).
     assert (forall out dmp e, In e ((if top then [] else [EBegin]) ++ [EEnd out dmp]) ->
                               match e with ECall _ _ _ => False | _ => True end) as Hbe
       by (intros out dmp e He; apply in_app_or in He; destruct He as [He|[<-|[]]]; [now apply Hb|exact I]).
-    assert (forall f, In f (FOps top (i + 1) ops :: k) -> ~ ahead cb f) as Hk'
-      by (intros f [<-|Hf]; [apply not_ahead_ops|apply Hfr; now right]).
     destruct o as [aid perms|aid|r|aid key|typ v0|idx|ms|].
     1-4, 6-7:
       intros E; injection E as <- <-;
       match goal with |- context [step ?s ?o] => destruct (plain_step s o I) as [Hm Hsub] end;
-      (split; [|apply Hno, Hbe]); unfold gone; cbn [c_st c_stack]; repeat split; [|exact Hk'|lia];
+      (split; [|apply Hno, Hbe]); unfold cancelled; cbn [c_st]; split; [|lia];
       intros Hin; apply in_map_iff in Hin; destruct Hin as (v & Ev & Hv);
       (destruct (Hsub v Hv) as [Hold|[E1 E2]]; [apply Hsubs; apply in_map_iff; exists v; tauto|lia]).
     + destruct (500 <=? now (c_st c) - last_attend (c_st c)); intros E; injection E as <- <-.
-      * split; [|apply Hno, Hb]. unfold gone. cbn [c_st c_stack insert subs next_cb]. repeat split; try assumption.
-        intros f [<-|Hf]; [exact Hsubs|now apply Hk'].
-      * split; [|apply Hno, Hbe]. unfold gone. cbn [c_st c_stack insert subs next_cb]. repeat split; assumption.
+      * split; [|apply Hno, Hb]. unfold cancelled. cbn [c_st insert subs next_cb]. split; assumption.
+      * split; [|apply Hno, Hbe]. unfold cancelled. cbn [c_st insert subs next_cb]. split; assumption.
     + intros E; injection E as <- <-. split; [|apply Hno, Hb].
-      unfold gone. cbn [c_st c_stack]. repeat split; try assumption.
-      intros f [<-|Hf]; [exact Hsubs|now apply Hk'].
+      unfold cancelled. cbn [c_st]. split; assumption.
   - intros E. injection E as <- <-. split.
-    + unfold gone. cbn [c_st c_stack]. repeat split.
+    + unfold cancelled. cbn [c_st]. split.
       * intros Hin. apply Hsubs. apply in_map_iff in Hin. destruct Hin as (v & Ev & Hv).
         apply in_map_iff. exists v. split; [assumption|]. destruct mk; cbn in Hv; apply filter_In in Hv; tauto.
-      * intros f Hf. apply Hfr. now right.
       * destruct mk; exact Hcb.
     + intros e [<-|[]]. cbn. tauto.
-  - assert (u_cb u <> cb /\ ~ In cb (map u_cb rest)) as [Hu Hrest].
-    { specialize (Hfr _ (or_introl eq_refl)). cbn in Hfr. split; intros X; apply Hfr; [now left|now right]. }
-    assert (forall marked', forall f, In f (FAtt rest marked' mk out :: k) -> ~ ahead cb f) as Hk'
-      by (intros marked' f [<-|Hf]; [exact Hrest|apply Hfr; now right]).
-    destruct (negb (mem (u_app u) (conss (c_st c)))).
-    { intros E. injection E as <- <-. split; [|intros e []]. unfold gone. cbn [c_st c_stack]. repeat split; try assumption.
-      apply Hk'. }
+  - destruct (negb (mem (u_app u) (conss (c_st c)))).
+    { intros E. injection E as <- <-. split; [|intros e []]. unfold cancelled. cbn [c_st]. split; assumption. }
     destruct (negb (nonempty (data_of (c_st c) u)) || negb (mult_ok u (length (data_of (c_st c) u)))
-              || negb (interval_passed (now (c_st c)) (u_nt u) (cur_last (c_st c) u))).
-    { intros E. injection E as <- <-. split; [|intros e []]. unfold gone. cbn [c_st c_stack]. repeat split; try assumption.
-      apply Hk'. }
+              || negb (listed (c_st c) u)
+              || negb (interval_passed (now (c_st c)) (u_nt u) (cur_last (c_st c) u))) eqn:Edue.
+    { intros E. injection E as <- <-. split; [|intros e []]. unfold cancelled. cbn [c_st]. split; assumption. }
+    (* the callback of u is invoked: u is in the list now, so it is not the cancelled one *)
+    apply orb_false_iff in Edue. destruct Edue as [Edue _].
+    apply orb_false_iff in Edue. destruct Edue as [_ Elisted]. apply negb_false_iff in Elisted.
+    unfold listed in Elisted. apply mem_In in Elisted.
+    assert (u_cb u <> cb) as Hu by (intros X; apply Hsubs; now rewrite <- X).
     destruct (pop_script (u_cb u) (c_scripts c)) as [r scr].
     intros E. injection E as <- <-. split.
-    + unfold gone. cbn [c_st c_stack stamp with_subs subs next_cb]. repeat split; try assumption.
-      * intros Hin. apply Hsubs. apply in_map_iff in Hin. destruct Hin as (v' & Ev & Hv').
-        apply in_map_iff in Hv'. destruct Hv' as (v & <- & Hv). apply in_map_iff. exists v. split; [|assumption].
-        destruct (u_cb v =? u_cb u); [destruct v; exact Ev|exact Ev].
-      * intros f Hf. destruct r as [[o|aid idx]|]; cbn [push_reaction] in Hf.
-        -- destruct Hf as [<-|Hf]; [apply not_ahead_ops|now apply (Hk' marked)].
-        -- destruct Hf as [<-|Hf]; [apply not_ahead_ops|now apply (Hk' marked)].
-        -- now apply (Hk' marked).
+    + unfold cancelled. cbn [c_st stamp with_subs subs next_cb]. split; [|assumption].
+      intros Hin. apply Hsubs. apply in_map_iff in Hin. destruct Hin as (v' & Ev & Hv').
+      apply in_map_iff in Hv'. destruct Hv' as (v & <- & Hv). apply in_map_iff. exists v. split; [|assumption].
+      destruct (u_cb v =? u_cb u); [destruct v; exact Ev|exact Ev].
     + intros e [<-|[]]. cbn. exact Hu.
 Qed.
 
-Lemma gone_run tbl cb fuel : forall c, gone cb c -> forall e, In e (fst (mrun fuel tbl c)) -> ~ is_call_of cb e.
+Lemma cancelled_run tbl cb fuel : forall c, cancelled cb c -> forall e, In e (fst (mrun fuel tbl c)) -> ~ is_call_of cb e.
 Proof.
   induction fuel as [|f IH]; intros c Hg e; cbn [mrun]; [intros []|].
   destruct (mstep tbl c) as [[c' evs]|] eqn:E; [|intros []].
-  destruct (gone_step tbl cb c c' evs Hg E) as [Hg' Hevs].
+  destruct (cancelled_step tbl cb c c' evs Hg E) as [Hg' Hevs].
   specialize (IH c' Hg' e). destruct (mrun f tbl c') as [r fin]. cbn [fst] in *.
   intros Hin. apply in_app_or in Hin. destruct Hin as [Hin|Hin]; [now apply Hevs|now apply IH].
 Qed.
 
-(* every cancellation made by an operation of the history proper, and every one made from a callback unless an
-   attendance under way still has the subscription ahead of it *)
-Theorem no_call_after_cancel_partial : no_call_after_cancel_stmt false.
+(* every cancellation: made by an operation of the history proper or from inside a callback, whatever attendances are
+   under way and whether or not they still have the subscription ahead of them *)
+Theorem no_call_after_cancel : no_call_after_cancel_stmt.
 Proof.
-  intros tbl t0 ops n c' evs u c Hstep Hu Hout Hframes fuel e He.
+  intros tbl t0 ops n c' evs u c Hstep Hu Hout fuel e He.
   destruct (J_reach tbl n (start t0 ops) [] (J_start (init t0) ops (Forall_nil _))) as (h & HJ).
   fold c in HJ. destruct (J_step tbl c h c' evs HJ Hstep) as (_ & _ & Hmono).
   destruct HJ as (Hs & _). rewrite Forall_forall in Hs. specialize (Hs u Hu).
-  apply (gone_run tbl (u_cb u) fuel c'); [|exact He].
-  unfold gone. repeat split; [exact Hout|exact (Hframes eq_refl)|lia].
+  apply (cancelled_run tbl (u_cb u) fuel c'); [|exact He].
+  unfold cancelled. split; [exact Hout|lia].
 Qed.
 
-(* known finding KF-C14-2: two consumers, no notification interval; from inside its notification the first one
-   unsubscribes the second one's subscription - the attendance under way still invokes the second one's callback *)
+(* the witness of KF-C14-2 (repaired), kept as an instance: two consumers, no notification interval; from inside its
+   notification the first one unsubscribes the second one's subscription, which the attendance under way still has
+   ahead of it - that attendance does not invoke the second one's callback any more *)
 Definition kf2_req (app key : Z) : sreq := mkSreq app key [2] None true [] true FNone (Some 0) (Some 1).
 Definition kf2_ops : list op :=
   [RegCons 2 [2]; RegCons 16 [16]; Subscribe (kf2_req 2 0); Subscribe (kf2_req 16 1); Advance 1000; AddObj 2 JNull].
@@ -401,26 +398,23 @@ Definition kf2_tbl : list (Z * script) := [(2, [Some (RUnsub 2 3)])].
 (* the state in which the first consumer's callback unsubscribes: 7 small steps into the history *)
 Definition kf2_before : cfg := mcfg 7 kf2_tbl (start 0 kf2_ops).
 Definition kf2_victim : sub := nth 1 (subs (c_st kf2_before)) (mkSub 0 0 0 (mkReq [] FNone []) None None 0).
-
 Definition kf2_after : cfg := mcfg 8 kf2_tbl (start 0 kf2_ops).
-Definition kf2_evs : list ev := match mstep kf2_tbl kf2_before with Some x => snd x | None => [] end.
+Definition ahead (cb : Z) (f : frame) : Prop :=
+  match f with FAtt rest _ _ _ => In cb (map u_cb rest) | _ => False end.
 
-Lemma kf2_step : mstep kf2_tbl (mcfg 7 kf2_tbl (start 0 kf2_ops)) = Some (kf2_after, kf2_evs).
-Proof. vm_compute. reflexivity. Qed.
-
-Theorem no_call_after_cancel_refuted : ~ no_call_after_cancel_stmt true.
+(* the hypotheses of the theorem hold there - the step cancels the victim while the attendance under way has it ahead -
+   and the rest of the history consists of the end of the unsubscription and the end of the addition: no call *)
+Lemma kf2_instance :
+  In kf2_victim (subs (c_st kf2_before)) /\
+  ~ In (u_cb kf2_victim) (map u_cb (subs (c_st kf2_after))) /\
+  (exists f, In f (c_stack kf2_after) /\ ahead (u_cb kf2_victim) f) /\
+  calls_in (fst (mrun 10 kf2_tbl (start 0 kf2_ops))) = [(0, [0])] /\
+  snd (mrun 10 kf2_tbl kf2_after) = true.
 Proof.
-  intros H.
-  assert (In kf2_victim (subs (c_st (mcfg 7 kf2_tbl (start 0 kf2_ops))))) as H1
-    by (vm_compute; right; left; reflexivity).
-  assert (~ In (u_cb kf2_victim) (map u_cb (subs (c_st kf2_after)))) as H2
-    by (vm_compute; intros [X|[]]; discriminate X).
-  assert (In (ECall kf2_victim [0] 1000) (fst (mrun 3 kf2_tbl kf2_after))) as H3
-    by (vm_compute; left; reflexivity).
-  assert (is_call_of (u_cb kf2_victim) (ECall kf2_victim [0] 1000)) as H4 by reflexivity.
-  assert (true = false -> forall f : frame, In f (c_stack kf2_after) -> ~ ahead (u_cb kf2_victim) f) as H5
-    by (intros X; discriminate X).
-  exact (H kf2_tbl 0 kf2_ops 7%nat kf2_after kf2_evs kf2_victim kf2_step H1 H2 H5 3%nat _ H3 H4).
+  split; [vm_compute; right; left; reflexivity|].
+  split; [vm_compute; intros [X|[]]; discriminate X|].
+  split; [|split; vm_compute; reflexivity].
+  exists (nth 1 (c_stack kf2_after) (FOps true 0 [])). split; vm_compute; [right|]; left; reflexivity.
 Qed.
 
 (* ---- consumers that only record: the machine is LdmSub.step, operation by operation --------------------- *)
@@ -455,6 +449,10 @@ Proof.
     + exfalso. apply Hn. left. lia.
     + apply IH. intros Hin. apply Hn. now right.
 Qed.
+
+Lemma listed_mid (f : sub -> sub) done u rest :
+  (forall v, u_cb (f v) = u_cb v) -> mem (u_cb u) (map u_cb (map f done ++ u :: rest)) = true.
+Proof. intros Hf. apply mem_In. rewrite map_app. apply in_or_app. right. now left. Qed.
 
 Lemma stamp_unique (f : sub -> sub) done u rest t :
   (forall v, u_cb (f v) = u_cb v) -> ~ In (u_cb u) (map u_cb done) -> ~ In (u_cb u) (map u_cb rest) ->
@@ -493,7 +491,8 @@ Proof.
     specialize (IH (done ++ [u]) Hnd'). rewrite <- !app_assoc in IH. cbn [app] in IH.
     cbn [length msteps]. unfold mstep. cbn [c_st c_stack c_scripts c_ids with_subs conss].
     change (data_of (with_subs s0 (map (after_attend s0) done ++ u :: rest)) u) with (data_of s0 u).
-    unfold cur_last. cbn [with_subs subs now].
+    unfold cur_last, listed. cbn [with_subs subs now].
+    rewrite (listed_mid (after_attend s0) done u rest (after_attend_cb s0)).
     rewrite (find_cb_unique (after_attend s0) done u rest (after_attend_cb s0) Hd), interval_same.
     cbn [filter]. unfold due at 1. unfold registered in *.
     destruct (mem (u_app u) (conss s0)) eqn:Ereg; cbn [negb andb].
@@ -529,13 +528,6 @@ Proof.
             now rewrite map_app, rev_app_distr).
       rewrite map_app in IH. cbn [map] in IH. rewrite Eu, Em, <- app_assoc in IH. cbn [app] in IH.
       rewrite IH. reflexivity.
-Qed.
-
-Lemma mem_In x l : mem x l = true <-> In x l.
-Proof.
-  unfold mem. rewrite existsb_exists. split.
-  - intros (y & Hy & E). apply Z.eqb_eq in E. now subst.
-  - intros H. exists x. split; [assumption|apply Z.eqb_refl].
 Qed.
 
 Lemma filter_map_comm {A B} (p : B -> bool) (f : A -> B) l : filter p (map f l) = map f (filter (fun x => p (f x)) l).
